@@ -153,6 +153,82 @@ fn uf(case: &Value, by_ref: bool, check_each: bool) -> Value {
    o
 }
 
+/// The id-based public API: `add` hands out ids, `unsafe union(Id, Id)` and `unsafe find(Id)` take them back.
+/// The harness keeps the id an item got when it was FIRST added (it is not refreshed: after later unions it is
+/// usually not a root any more) and drives unions and finds through those stale ids.
+fn uf_ids(case: &Value, check_each: bool) -> Value {
+   let n = case["n"].as_u64().unwrap();
+   let mut uf = UnionFind::<u64>::default();
+   let mut first = std::collections::HashMap::new();
+   let mut rets = vec![];
+   let mut fail = Value::Null;
+   let mut selfchecks = vec![];
+   for (i, op) in case["hist"].as_array().unwrap().iter().enumerate() {
+      let kind = op[0].as_str().unwrap();
+      let r = match kind {
+         "add" => {
+            let x = arg(op, 1);
+            guarded(|| {
+               let (new, id) = uf.add(x);
+               first.entry(x).or_insert(id);
+               (new, id)
+            })
+            .map(|(new, id)| json!({"new": new, "id": format!("{:?}", id)}))
+         },
+         "find" => {
+            let x = arg(op, 1);
+            guarded(|| first.get(&x).map(|id| unsafe { uf.find(*id) }))
+               .map(|id| json!({"id": id.map(|id| format!("{:?}", id))}))
+         },
+         "union" => {
+            let (x, y) = (arg(op, 1), arg(op, 2));
+            guarded(|| {
+               let (_, idx) = uf.add(x);
+               let idx = *first.entry(x).or_insert(idx);
+               let (_, idy) = uf.add(y);
+               let idy = *first.entry(y).or_insert(idy);
+               unsafe { uf.union(idx, idy) }
+            })
+            .map(|id| json!({"id": format!("{:?}", id)}))
+         },
+         _ => panic!("unknown op {kind}"),
+      };
+      match r {
+         Ok(v) => rets.push(v),
+         Err(m) => {
+            fail = json!({"step": i, "what": kind, "msg": m});
+            break;
+         },
+      }
+      if check_each {
+         match guarded(|| uf.verif_ok()) {
+            Ok(true) => {},
+            Ok(false) => selfchecks.push(json!({"step": i, "what": "verif_ok", "msg": "returned false"})),
+            Err(m) => selfchecks.push(json!({"step": i, "what": "verif_ok", "msg": format!("panicked: {m}")})),
+         }
+      }
+   }
+   let mut o = json!({"fail": fail, "rets": rets, "selfchecks": selfchecks});
+   if !o["fail"].is_null() {
+      return o;
+   }
+   if !check_each {
+      o["ok"] = res(guarded(|| uf.verif_ok()));
+   }
+   o["len"] = res(guarded(|| uf.len()));
+   o["is_empty"] = res(guarded(|| uf.is_empty()));
+   // classes seen through find(stale id) ...
+   o["roots"] = res(guarded(|| {
+      (0..n).map(|x| first.get(&x).map(|id| format!("{:?}", unsafe { uf.find(*id) }))).collect::<Vec<_>>()
+   }));
+   // ... and through the item index must be the same partition
+   o["roots_again"] = res(guarded(|| {
+      (0..n).map(|x| uf.find_item(&x).map(|id| format!("{:?}", id))).collect::<Vec<_>>()
+   }));
+   o["ok_after_queries"] = res(guarded(|| uf.verif_ok()));
+   o
+}
+
 fn main() {
    quiet_panics();
    let mut out = Out::open();
@@ -161,7 +237,8 @@ fn main() {
          Some("trrel") => json!({"m": "trrel", "flavours": {"plain": trrel(&case, false), "renamed": trrel(&case, true)}}),
          Some("uf") => json!({"m": "uf", "flavours": {
             "owned_each": uf(&case, false, true), "owned_last": uf(&case, false, false),
-            "ref_each": uf(&case, true, true), "ref_last": uf(&case, true, false)}}),
+            "ref_each": uf(&case, true, true), "ref_last": uf(&case, true, false),
+            "ids_each": uf_ids(&case, true), "ids_last": uf_ids(&case, false)}}),
          _ => json!({"error": "unknown machine"}),
       };
       out.line(&o);
